@@ -59,6 +59,6 @@ CHECKS['C13'] = dict(
                   dict(tu='c13_targa', group='samples', shards=2), dict(tu='c13_png_a', group='samples', shards=2), dict(tu='c13_png_b', group='samples', shards=4),
                   dict(tu='c13_jpeg', group='samples', shards=2), dict(tu='c13_tiff_a', group='samples'), dict(tu='c13_tiff_b', group='samples'),
                   dict(tu='c13_tiff_c', group='samples')]),
-    witnesses_required=dict(quick=_c13_witness + ['sample_files'], thorough=_c13_witness + ['sample_files']),
+    witnesses_required=dict(quick=_c13_witness + ['sample_files', 'jpeg_scanline_with_dct_setting'], thorough=_c13_witness + ['sample_files', 'jpeg_scanline_with_dct_setting']),
     deadline=dict(quick=900, thorough=5400),
 )
